@@ -32,6 +32,9 @@ def plan_runs(prop, scenario, flags, ts, cfg):
     if scenario.startswith("history+"):   # as "history", but in the real pipeline of the witness other public calls are made on the Shaper between the two calls
         return [dict(base, name="first-call", keep=True), dict(base, t=ts[1], name="second-call-same-shaper", reuse=0, real_pre_calls=tuple(scenario[8:].split("+"))),
                 dict(base, t=ts[1], name="fresh-shaper")]
+    if scenario == "delivery":       # the same graph through every delivery channel: real pipeline of the witness only (the symbolic stage never sees the channel)
+        from .delivery import CHANNELS
+        return [base] + [dict(base, name="via:" + ch, e2e_only=True, same_as=0, real_delivery=ch) for ch in (cfg.get("channels") or CHANNELS)]
     if scenario == "repeat":         # the same call twice on one Shaper
         return [dict(base, name="first-call", keep=True), dict(base, name="second-call-same-shaper", reuse=0)]
     if scenario == "ignore-ns":      # namespaces_to_ignore = deleting those triples from the input (class membership still from the full graph)
@@ -126,6 +129,10 @@ def run_obligation(res, prop, st_name, N, findings, scenario="single", cfg=None)
             if key not in syms:
                 syms[key] = T.build_symbolic(ex, st, N, r["flags"]["inverse_paths"], reverse=(r["graph"] == "R"), permuted=(r["graph"] == "P"), targets=targets, dropped=(r["graph"] == "D"))
             r["sym"] = syms[key]
+            if r.get("same_as") is not None:       # nothing to execute symbolically for this run: it differs from run `same_as` outside the stage only
+                b = runs[r["same_as"]]
+                r.update(text=b["text"], shacl=b["shacl"], tag=b["tag"], err=b["err"])
+                continue
             try:
                 extra = dict(r["extra"])
                 if targets is not None:
@@ -226,7 +233,7 @@ def run_obligation(res, prop, st_name, N, findings, scenario="single", cfg=None)
                 kept = [] if r.get("keep") else None
                 reuse = reals[r["reuse"]].get("shaper") if r.get("reuse") is not None else None
                 with shims.real_code():
-                    rt, rs = T.run_real_pipeline(doc, r["flags"], thr, r["report_mode"], r["decimals"], r["or_flags"], r["want_shacl"], extra, reuse=reuse, keep=kept, pre_calls=r.get("real_pre_calls", ()))
+                    rt, rs = T.run_real_pipeline(doc, r["flags"], thr, r["report_mode"], r["decimals"], r["or_flags"], r["want_shacl"], extra, reuse=reuse, keep=kept, pre_calls=r.get("real_pre_calls", ()), delivery=_delivery(r, st, vals, triples, shapemap))
                 reals.append(dict(tag="OK", text=rt, shacl=rs, thr=thr, run=r, shaper=kept[0] if kept else None))
             except Exception as e:  # noqa
                 reals.append(dict(tag="EXC", text=None, shacl=None, thr=thr, run=r, err=type(e).__name__))
@@ -253,7 +260,10 @@ def run_obligation(res, prop, st_name, N, findings, scenario="single", cfg=None)
         inst_over = R.shapemap_instances(st["rows"], vals) if shapemap else None
         if targets is not None:
             inst_over = R.refprof(triples, targets={R.EX + c for c in targets})[0]
-        problems = [] if any(x["tag"] == "EXC" for x in reals) else concrete_problems(prop, scenario, triples, reals, ctx["flags"], st["tags"], active, cfg, inst_over)
+        known_hits = {}
+        problems = [] if any(x["tag"] == "EXC" for x in reals) else concrete_problems(prop, scenario, triples, reals, ctx["flags"], st["tags"], active, cfg, inst_over, known_hits)
+        for k_, v_ in known_hits.items():
+            res["known"][k_] = res["known"].get(k_, 0) + v_
         if mismatch is not None:
             if problems and viol is None:
                 # a real regression in code that H-STAGE does not execute symbolically (profiler, tracker, readers, glue)
@@ -279,6 +289,12 @@ def run_obligation(res, prop, st_name, N, findings, scenario="single", cfg=None)
     res["extra"]["structure"] = [r.to_json() for r in st["rows"]]
 
 
+def _delivery(r, st, vals, triples, shapemap):
+    if r.get("real_delivery") is None:
+        return None
+    return (r["real_delivery"], _graph_variant(st, vals, triples, r.get("real_graph", r["graph"]), shapemap))
+
+
 def _graph_variant(st, vals, triples, graph, shapemap):
     if graph == "R":
         return T.reverse_triples(triples)
@@ -298,7 +314,7 @@ def _same_graph(a, b):
     return isomorphic(ga, gb)
 
 
-def concrete_problems(prop, scenario, triples, reals, flags, tags, active, cfg, instances=None):
+def concrete_problems(prop, scenario, triples, reals, flags, tags, active, cfg, instances=None, known_hits=None):
     from . import stage_props as P
     parsed = []
     for x in reals:
@@ -307,7 +323,7 @@ def concrete_problems(prop, scenario, triples, reals, flags, tags, active, cfg, 
         except shexc.ShExSyntaxError as e:
             return ["ShExC output does not parse: %s" % e]
     return P.CONCRETE[prop](dict(triples=triples, reals=reals, schemas=parsed, flags=flags, tags=list(tags), active=active, scenario=scenario, cfg=cfg,
-                                 instances=instances))
+                                 instances=instances, known_hits=known_hits))
 
 
 def replay(args):
@@ -330,7 +346,7 @@ def replay(args):
         try:
             kept = [] if r.get("keep") else None
             reuse = reals[r["reuse"]].get("shaper") if r.get("reuse") is not None else None
-            rt, rs = T.run_real_pipeline(doc, r["flags"], r["t"], r["report_mode"], r["decimals"], r["or_flags"], r["want_shacl"], extra, reuse=reuse, keep=kept, pre_calls=r.get("real_pre_calls", ()))
+            rt, rs = T.run_real_pipeline(doc, r["flags"], r["t"], r["report_mode"], r["decimals"], r["or_flags"], r["want_shacl"], extra, reuse=reuse, keep=kept, pre_calls=r.get("real_pre_calls", ()), delivery=_delivery(r, st, args["values"], triples, shapemap))
         except Exception as e:  # noqa
             print("extraction raised %s: %s [run %s]\ndocument:\n%s" % (type(e).__name__, e, r["name"], doc))
             return True
